@@ -294,10 +294,15 @@ fn endpoints(ip: &Ip, tcp: &Tcp) -> (String, String) {
 }
 
 fn link_for(i: u64) -> Link {
-    match i % 3 {
+    match i % 4 {
         0 => Link::Ethernet,
         1 => Link::RawIp,
-        _ => Link::Null(pkt::NULL_V6_LE),
+        2 => Link::Null(pkt::NULL_V6_LE),
+        // Ethernet with MAC addresses that read like an IP header / a loopback family word
+        _ => {
+            let x = i.wrapping_mul(0x9E37_79B9_7F4A_7C15);
+            pkt::lookalike_macs(i / 4, [(x >> 8) as u8, (x >> 16) as u8, (x >> 24) as u8, (x >> 32) as u8, (x >> 40) as u8, (x >> 48) as u8])
+        }
     }
 }
 
